@@ -5,7 +5,8 @@ set -u
 ID=$1
 id=$(echo "$ID" | tr 'A-Z' 'a-z')
 WT=${2:-/tmp/wt-$ID}
-OUT=/verif/seeded/$ID
+NAME=${3:-$ID}
+OUT=/verif/seeded/$NAME
 mkdir -p "$OUT"
 cd "$WT" || exit 2
 export CARGO_TARGET_DIR=$WT/target CARGO_NET_OFFLINE=true
@@ -38,16 +39,16 @@ git -C /repo checkout -- .
 git -C /repo status --short | head -3
 grep -E "^VIOLATION|quick:" "$OUT/check-output.txt" | head -5
 echo "exit=$RC"
-python3 - "$ID" "$SUITE" "$DEMO_WITH" "$DEMO_WITHOUT" "$RC" <<'PY'
+python3 - "$ID" "$SUITE" "$DEMO_WITH" "$DEMO_WITHOUT" "$RC" "$NAME" <<'PY'
 import json,sys,re
-ID,suite,dw,dwo,rc=sys.argv[1:6]
-out=f"/verif/seeded/{ID}"
+ID,suite,dw,dwo,rc,name=sys.argv[1:7]
+out=f"/verif/seeded/{name}"
 keys=sorted(set(re.findall(r"key=(\S+)", open(f"{out}/check-output.txt").read())))
 notes=open(f"{out}/NOTES.md").read() if __import__('os').path.exists(f"{out}/NOTES.md") else ""
 meta={"property":ID,"source":"written by an independent sub-agent that saw only the property text and a scratch worktree of /repo",
  "repo_suite_with_change":suite,"demo_with_change":dw.split(),"demo_without_change":dwo.split(),
  "quick_check_exit":int(rc),"quick_check_violation_keys":keys[:12],
  "detected_by_quick_check": int(rc)==1,
- "ran":[f"cargo test --lib --offline (in the agent's worktree, change applied)",f"cargo test --offline --test demo_{ID.lower()} (with and without the change, 3 runs each)",f"git -C /repo apply seeded/{ID}/patch.diff; ./check.sh {ID} quick; git -C /repo checkout -- ."]}
+ "ran":[f"cargo test --lib --offline (in the agent's worktree, change applied)",f"cargo test --offline --test demo_{ID.lower()} (with and without the change, 3 runs each)",f"git -C /repo apply /verif/seeded/{name}/patch.diff; ./check.sh {ID} quick; git -C /repo checkout -- ."]}
 json.dump(meta,open(f"{out}/meta.json","w"),indent=1)
 PY
